@@ -293,6 +293,12 @@ def run(ctx):
             # nb[0], nb[1] are small range checks, nb[2] is too wide; after the loop `i` is 2
             ("loop-index-after-loop", head + "component nb[3]; component rb = Num2Bits(%d); var i = 0; while (i < 2) { nb[i] = Num2Bits(%d); nb[i].in <== x[i]; i++; } "
              "nb[2] = Num2Bits(%d); nb[i].in <== a; rb.in <== b; lt.in[0] <== a; lt.in[1] <== b; o <== lt.out; }" % (small, small, big), 1, 1),
+            # the value side of the same confusion (second review): `x[i]` after the loop is another element than `x[i]` in its body …
+            ("value-index-after-loop", head + "component nb[2]; component rb = Num2Bits(%d); var i = 0; while (i < 2) { nb[i] = Num2Bits(%d); nb[i].in <== x[i]; i++; } "
+             "rb.in <== b; lt.in[0] <== x[i]; lt.in[1] <== b; o <== lt.out; }" % (small, small), 1, 1),
+            # … while a range check and a comparison of `x[i]` in one iteration are about the same element
+            ("value-index-same-iteration", head + "component nb[2]; component lc[2]; var i = 0; while (i < 2) { nb[i] = Num2Bits(%d); nb[i].in <== x[i]; lc[i] = LessThan(8); "
+             "lc[i].in[0] <== x[i]; lc[i].in[1] <== x[i]; i++; } o <== lc[0].out; }" % small, 0, 0),
             # both inputs given as a signal array (review of ee9259e: only an inline array was examined) — at least one warning
             ("array-input-variable", head + "lt.in <== x; o <== lt.out; }", 1, 2),
             # a component that is LessThan on one branch and another template on the other: its inputs are inputs of LessThan on some path
